@@ -40,9 +40,29 @@ fn step(mut ctx: Context, st: &str) -> Result<(Context, String), String> {
     }
     let args: Vec<String> = t[2..].iter().map(|x| dec_str(x)).collect();
     let mut refs = vec![];
+    // Arguments free of `$` and `%` are written as quoted literals (documented syntax, property C01), so that the variable map
+    // holds nothing but the history's own variables while the command runs (seed C11-w7-m2: a fast path of push compared the
+    // length of the --copy list with the number of variables - the helper variables below made it unreachable).  Arguments
+    // with `$` / `%` cannot be written literally (no escape for `%`): they are handed over through helper variables `__aN`.
+    let literal = args.iter().all(|a| !a.contains('$') && !a.contains('%'));
     for (i, a) in args.iter().enumerate() {
-        ctx.variables.insert(format!("__a{}", i), a.clone());
-        refs.push(format!("${{__a{}}}", i));
+        if literal {
+            let mut q = String::from("\"");
+            for c in a.chars() {
+                match c {
+                    '"' => q.push_str("\\\""),
+                    '\\' => q.push_str("\\\\"),
+                    '\n' => q.push_str("\\n"),
+                    '\r' => q.push_str("\\r"),
+                    _ => q.push(c),
+                }
+            }
+            q.push('"');
+            refs.push(q);
+        } else {
+            ctx.variables.insert(format!("__a{}", i), a.clone());
+            refs.push(format!("${{__a{}}}", i));
+        }
     }
     let r = refs.join(" ");
     let call = match t[1] {
